@@ -1314,9 +1314,8 @@ impl HttpListener {
 
         // Everything that can fail is computed first, on copies: a patch that
         // is answered with an error must leave the live listener untouched.
-        // HTTP answers: merge legacy `http_answers` and the new `answers` map
-        // on top of the existing config and compile the listener-level
-        // template registry.
+        // The legacy `http_answers` and the new `answers` map are merged on top
+        // of the existing config and the template registry is compiled here.
         let answers_changed = patch.http_answers.is_some() || !patch.answers.is_empty();
         let mut staged_answers = None;
         if answers_changed {
